@@ -174,7 +174,8 @@ CHECKS["C07"] = dict(
     level_text="The selected route list equals the depth-first / first-match-unless-continue / self-only-if-no-child rule for every tree and label set; inherited receiver, group_by (incl. [], '...', re-override), group_wait/interval/repeat and merged labels equal a field-by-field reference; mute/active time intervals are exactly the route's own; the result is never empty.",
     level_note="amtool's routing test and the API receivers field call the same Route.Match (agreement by construction; the API field is compared with hand-written expectations in C13/C06).",
     assumptions=E4_ASSUME,
-    units=[dict(pkg="dispatch", test="TestVerifC07", shards_quick=16, shards_thorough=16, budget_quick=200, budget_thorough=1500)],
+    units=[dict(pkg="dispatch", test="TestVerifC07", shards_quick=16, shards_thorough=16, budget_quick=200, budget_thorough=1500),
+           dict(pkg="cli", test="TestVerifC07Cli", shards_quick=8, shards_thorough=16, budget_quick=100, budget_thorough=900)],
 )
 
 CHECKS["C16"] = dict(
